@@ -644,3 +644,236 @@ func judgeMulti(c *Case, o *obs) []verdict {
 	}
 	return vs
 }
+
+// ---------------------------------------------------------------------------
+// Per: two further periodic programs.
+//
+//	hold       the first instance (due +15 ms) is started early with RunJob at about
+//	           +3 ms and its job function is held until +25 ms, i.e. past the instance's
+//	           own time; the next instance is due at +60 ms, then there are no more.
+//	           Nothing is due when the held run ends, so nothing may run then.
+//	failfirst  the runtime function fails on its very first call (plain error or
+//	           ErrNoMoreInstances); afterwards the job table must match the model: the
+//	           name is not listed, RunJob does not claim anything, the name can be
+//	           scheduled again and that job runs once.
+
+// Per is the program shape described above.
+type Per struct {
+	Variant string `json:"variant"`       // hold | failfirst
+	Err     string `json:"err,omitempty"` // failfirst: plain | nomore
+}
+
+func genPer(t *rapid.T, c *Case) {
+	c.Per = &Per{Variant: rapid.SampledFrom([]string{"failfirst", "hold", "failfirst", "hold"}).Draw(t, "perVariant")}
+	if c.Per.Variant == "failfirst" {
+		c.Per.Err = rapid.SampledFrom([]string{"plain", "nomore", "plain"}).Draw(t, "perErr")
+	}
+	c.Periodic = true
+	c.TicksUs = []int64{15000}
+	c.PeriodUs, c.HorizonUs = 0, 0
+	c.Ops, c.Resched, c.Recycle = nil, false, nil
+	c.Reps = (reps() + 1) / 2
+}
+
+type perObs struct {
+	schedErr   error
+	runErr     error
+	runAt      time.Duration
+	probeErr   error
+	probeRuns  int
+	exists     bool
+	listed     bool
+	reschedErr error
+	reschedN   int
+}
+
+func runPer(c *Case, base int, can *canary, leaked map[string]bool, leakedSelect int) (*obs, error) {
+	o := &obs{parkedAt: -1, per: &perObs{}}
+	po := o.per
+	bg := context.Background()
+	svc, err := advanced.New(bg, advanced.WithLogLevel(zerolog.Disabled))
+	if err != nil {
+		return nil, err
+	}
+	ctx, cancelCtx := context.WithCancel(bg)
+	defer cancelCtx()
+	can.reset()
+	t0 := time.Now()
+	rec := &recorder{t0: t0}
+	var hmu sync.Mutex
+	asked := 0
+	instances := []time.Duration{15 * time.Millisecond, 60 * time.Millisecond}
+	runtimeFunc := func(context.Context) (time.Time, error) {
+		hmu.Lock()
+		defer hmu.Unlock()
+		asked++
+		now := time.Since(t0)
+		if c.Per.Variant == "failfirst" {
+			o.exhausted = true
+			if c.Per.Err == "nomore" {
+				return time.Time{}, scheduler.ErrNoMoreInstances
+			}
+			return time.Time{}, errors.New("scripted runtime function error")
+		}
+		// the next instance that is still ahead
+		for _, v := range instances {
+			if v > now {
+				o.handouts = append(o.handouts, now)
+				o.handVals = append(o.handVals, v)
+				return t0.Add(v), nil
+			}
+		}
+		o.exhausted = true
+		return time.Time{}, scheduler.ErrNoMoreInstances
+	}
+	held := false
+	job := func(ctx context.Context) {
+		hmu.Lock()
+		first := !held
+		held = true
+		hmu.Unlock()
+		if first && c.Per.Variant == "hold" {
+			// harness-held: this run outlasts the instance's own time (+15 ms)
+			s := time.Since(t0)
+			rec.mu.Lock()
+			rec.cur++
+			if rec.cur > rec.maxConc {
+				rec.maxConc = rec.cur
+			}
+			idx := len(rec.runs)
+			rec.runs = append(rec.runs, span{start: s, end: -1})
+			rec.mu.Unlock()
+			if d := time.Until(t0.Add(25 * time.Millisecond)); d > 0 {
+				time.Sleep(d)
+			}
+			rec.mu.Lock()
+			rec.cur--
+			rec.runs[idx].end = time.Since(t0)
+			rec.mu.Unlock()
+			return
+		}
+		rec.job(ctx)
+	}
+	po.schedErr = svc.SchedulePeriodicJob(ctx, "c02", jobName, runtimeFunc, job)
+	end := t0
+	if c.Per.Variant == "hold" && po.schedErr == nil {
+		time.Sleep(3 * time.Millisecond)
+		po.runAt = time.Since(t0)
+		o.ops = make([]opRes, 1)
+		o.ops[0].kind = "run"
+		callOp(svc, cancelCtx, "run", "", t0, &o.ops[0])
+		po.runErr = o.ops[0].err
+		end = t0.Add(60 * time.Millisecond)
+	}
+	progress := func() [3]int {
+		hmu.Lock()
+		h := asked
+		hmu.Unlock()
+		rec.mu.Lock()
+		defer rec.mu.Unlock()
+		return [3]int{h, len(rec.runs), rec.cur}
+	}
+	var stuck *schedGoroutine
+	o.settled, stuck = settle(base, end, can, leaked, progress)
+	o.runs, o.maxConc = rec.snapshot()
+	if stuck != nil {
+		o.stuck, o.stuckDump = stuck.state, stuck.text
+		return o, nil
+	}
+	if !o.settled {
+		return o, nil
+	}
+	// the job has finished: the table against the model
+	po.exists = svc.JobExists(bg, jobName)
+	for _, n := range svc.ListJobs(bg) {
+		if n == jobName {
+			po.listed = true
+		}
+	}
+	if c.Per.Variant == "failfirst" {
+		before := len(o.runs)
+		var pr opRes
+		callOp(svc, cancelCtx, "run", "", t0, &pr)
+		po.probeErr = pr.err
+		if pr.err == nil {
+			time.Sleep(2 * time.Millisecond)
+			waitGoroutines(base, 200*time.Millisecond)
+		}
+		rs, _ := rec.snapshot()
+		po.probeRuns = len(rs) - before
+		rec2 := &recorder{t0: time.Now()}
+		po.reschedErr = svc.ScheduleJob(bg, "c02", jobName, time.Now().Add(300*time.Microsecond), rec2.job)
+		if po.reschedErr == nil {
+			o.settled = waitGoroutines(base, settleCeiling)
+			r2, _ := rec2.snapshot()
+			po.reschedN = len(r2)
+		}
+	}
+	return o, nil
+}
+
+// earlyRuns counts the runs that began clearly before the runtime most recently
+// handed out by the runtime function: a timer never fires early, so each of them
+// needs an early-run request of its own.
+func earlyRuns(o *obs) int {
+	n := 0
+	for _, r := range o.runs {
+		for i := len(o.handouts) - 1; i >= 0; i-- {
+			if o.handouts[i] <= r.start {
+				if r.start+time.Millisecond < o.handVals[i] {
+					n++
+				}
+				break
+			}
+		}
+	}
+	return n
+}
+
+func judgePer(c *Case, o *obs) []verdict {
+	vs := judgeCommon(c, o)
+	po := o.per
+	if !o.settled {
+		return vs
+	}
+	what := fmt.Sprintf("SchedulePeriodicJob returned %v; %s", po.schedErr, describe(o))
+	switch c.Per.Variant {
+	case "hold":
+		if po.schedErr != nil {
+			return vs
+		}
+		if o.maxConc > 1 {
+			vs = append(vs, verdict{"periodic-overlap", "periodic job function ran concurrently with itself: " + what})
+		}
+		ok := 0
+		if po.runErr == nil {
+			ok = 1
+		}
+		if e := earlyRuns(o); e > ok {
+			vs = append(vs, verdict{"periodic-ran-with-nothing-due", fmt.Sprintf("%d runs began before the runtime the job was waiting for, with %d successful early-run requests: %s", e, ok, what)})
+		}
+		if ok == 1 && len(o.runs) == 0 {
+			vs = append(vs, verdict{"periodic-early-run-dropped", "RunJob returned nil and the job never ran: " + what})
+		}
+		if po.exists || po.listed {
+			vs = append(vs, verdict{"name-still-listed-after-finish", fmt.Sprintf("after the job finished JobExists=%v listed=%v: %s", po.exists, po.listed, what)})
+		}
+	case "failfirst":
+		model := fmt.Sprintf("runtime function failed on its first call (%s); afterwards JobExists=%v listed=%v, RunJob returned %v and %d runs followed, scheduling the name again returned %v and that job ran %d times; %s", c.Per.Err, po.exists, po.listed, po.probeErr, po.probeRuns, po.reschedErr, po.reschedN, what)
+		if len(o.runs)-po.probeRuns > 0 {
+			vs = append(vs, verdict{"periodic-ran-with-nothing-due", "the job ran although its runtime function never gave a runtime: " + model})
+		}
+		if po.exists || po.listed {
+			vs = append(vs, verdict{"name-still-listed-after-finish", "a periodic job that ended at its first runtime request is still listed: " + model})
+		}
+		if po.probeErr == nil && po.probeRuns == 0 {
+			vs = append(vs, verdict{"periodic-early-run-dropped", "RunJob returned nil for a job that has ended, and nothing ran: " + model})
+		}
+		if po.reschedErr != nil {
+			vs = append(vs, verdict{"name-not-reusable", "scheduling the ended job's name again failed: " + model})
+		} else if po.reschedN != 1 {
+			vs = append(vs, verdict{"rescheduled-job-not-run-once", "the job scheduled again under the same name did not run once: " + model})
+		}
+	}
+	return vs
+}
